@@ -64,16 +64,16 @@ def jsonable_equal(a: Any, b: Any) -> bool:
     return a == b
 
 
-def judge_run(prog, ctx, detail, tz, scratch, digests: Dict[str, Dict[str, str]]) -> Tuple[Optional[Tuple[str, str]], dict]:
+def judge_run(prog, ctx, detail, tz, scratch, digests: Dict[str, Dict[str, str]], pipeline=None) -> Tuple[Optional[Tuple[str, str]], dict]:
     dkind = first_accepted_kind(prog)
     ref = interp.run(prog, gen.ref_data(dkind), ctx)
     t0 = time.time()
     try:
-        records, files, real, pipe, driver = traces.traced_single(prog, dkind, ctx, detail=detail, mode="file", scratch=scratch)
+        records, files, real, pipe, driver = traces.traced_single(prog, dkind, ctx, detail=detail, mode="file", scratch=scratch, pipeline=pipeline)
     except Exception as exc:
         return None, {"class": "loader-rejects"}
     t1 = time.time()
-    info = {"class": f"{ref.status}:{ref.error}", "sers": 0}
+    info = {"class": f"{ref.status}:{ref.error}", "sers": 0, "pipeline": pipe}
     sers = [r for r in records if r.get("record_type") == "ser"]
     info["sers"] = len(sers)
     # ---- timestamps: true UTC instants, RFC 3339, non-decreasing -------------------------------------------
@@ -199,8 +199,27 @@ def _worker(chunk):
     out = {"n": 0, "sers": 0, "viol": [], "classes": {}, "nontrivial": set(), "digests": None, "sample": None}
     for prog, detail, tz in chunk:
         set_tz(tz)
+        if detail.startswith("history:"):
+            # several runs on ONE Pipeline object: every run's SERs must be true of THAT run
+            detail = detail.split(":", 1)[1]
+            cs = [c for c in contexts_c07(prog) if "zz" not in c][:3]
+            for a in cs:
+                for b in cs:
+                    pipe = None
+                    for k, ctx in enumerate((a, b)):
+                        bad, info = judge_run(prog, ctx, detail, tz, scratch, digests, pipeline=pipe)
+                        pipe = info.get("pipeline")
+                        out["n"] += 1
+                        out["sers"] += info.get("sers", 0)
+                        if bad:
+                            out["viol"].append((bad[0] + ("|second-run-on-same-pipeline" if k else ""),
+                                                f"{list(prog)} contexts {a} then {b} on one Pipeline object, run {k}, detail={detail} TZ={tz}: {bad[1]}",
+                                                {"prog": list(prog), "ctx": ctx, "detail": detail, "tz": tz, "history": [a, b]}))
+                            break
+            continue
         for ctx in contexts_c07(prog):
             bad, info = judge_run(prog, ctx, detail, tz, scratch, digests)
+            info.pop("pipeline", None)
             out["n"] += 1
             out["sers"] += info.get("sers", 0)
             out["classes"][info["class"]] = out["classes"].get(info["class"], 0) + 1
@@ -238,6 +257,10 @@ def plan(tier: str):
                     jobs.append((p, d, tz))
         else:
             jobs.append((p, details[i % len(details)], tzs[(i // len(details)) % len(tzs)]))
+    from mc.props.c06 import HISTORY_PROGS
+
+    for i, p in enumerate(HISTORY_PROGS + (list(SAME_FAMILY_PROGS) if tier == "thorough" else list(SAME_FAMILY_PROGS[:4]))):
+        jobs.append((p, "history:" + details[i % len(details)], tzs[i % len(tzs)]))
     return jobs
 
 
